@@ -53,13 +53,22 @@ RenderItems(items, i, isObj, canon) ==
        \o (IF isObj THEN QuoteStr(items[i][1]) \o <<58>> \o RenderG(items[i][2], canon) ELSE RenderG(items[i], canon))
        \o RenderItems(items, i + 1, isObj, canon)
 
-Render(v) == RenderG(v, TRUE)
+\* NaN / Inf can only enter a tape through SetFloat; marshalling must then fail
+NonFiniteLits == {<<78, 97, 78>>, <<73, 110, 102>>, <<45, 73, 110, 102>>}      \* NaN Inf -Inf
+RECURSIVE HasNonFinite(_)
+HasNonFinite(v) ==
+  CASE v[1] = "num" -> v[2] \in NonFiniteLits
+    [] v[1] = "a" -> \E i \in 1..Len(v[2]) : HasNonFinite(v[2][i])
+    [] v[1] = "o" -> \E i \in 1..Len(v[2]) : HasNonFinite(v[2][i][2])
+    [] OTHER -> FALSE
+MarshalError == <<0>>            \* stands for "MarshalJSON returns an error" (no real output contains NUL)
+Render(v) == IF HasNonFinite(v) THEN MarshalError ELSE RenderG(v, TRUE)
 
 RECURSIVE RenderRootsG(_, _, _)
 RenderRootsG(docs, i, canon) ==
   IF i > Len(docs) THEN <<>>
   ELSE (IF i > 1 THEN <<10>> ELSE <<>>) \o RenderG(docs[i], canon) \o RenderRootsG(docs, i + 1, canon)
-RenderRoots(docs, i) == RenderRootsG(docs, i, TRUE)
+RenderRoots(docs, i) == IF \E k \in 1..Len(docs) : HasNonFinite(docs[k]) THEN MarshalError ELSE RenderRootsG(docs, i, TRUE)
 SourceText(docs) == RenderRootsG(docs, 1, FALSE)
 
 =============================================================================
